@@ -241,10 +241,20 @@ Example C16_cell_history_nonvacuous : cell_history_example.
 Proof. exact cell_history_example_holds. Qed.
 Print Assumptions C16_cell_history_nonvacuous.
 
-(* 8. the last sentence of C16 ("rows skipped through a false include_if are not evaluated at all") is FALSE of the faithful
-   model for an inclusion cell that yields a falsy object other than False: the row is excluded and evaluated all the same
-   (finding falsy-include_if-row-evaluated; candidate patch in design.d/FIX_falsy-include_if.md).  C16_excluded_row_not_evaluated
-   is the part that holds: the STRING "false". *)
-Theorem C16_falsy_include_if_row_is_evaluated_refuted : falsy_include_if_witness.
-Proof. exact falsy_include_if_witness_holds. Qed.
-Print Assumptions C16_falsy_include_if_row_is_evaluated_refuted.
+(* 8. the last sentence of C16, "rows skipped through a false include_if are not evaluated at all", for inclusion cells that
+   yield a falsy OBJECT other than False ({@ none @}, {@ 0 @}, {@ [] @}, {@ {} @}): decided by the probed constant
+   falsy_include_if_skips_evaluation (translator/tables_c16.py, through FlowParser).  On a tree whose pre-check reads the
+   value as the row parser will (323c1cc and later): EVERY row — ordinary or insert_as_block — that its inclusion value
+   excludes, string or object, has no other cell handed to the template engine, for every row, context and policy.  On a tree
+   that compares str(value) with "false": the witness of the finding falsy-include_if-row-evaluated (the row is excluded and
+   evaluated all the same).  C16_excluded_row_not_evaluated is the part that holds on both: the STRING "false". *)
+Theorem C16_falsy_include_if_decided :
+  if falsy_include_if_skips_evaluation
+  then falsy_rows_not_evaluated falsy_include_if_skips_evaluation
+  else falsy_include_if_witness.
+Proof. exact falsy_include_if_decided. Qed.
+Print Assumptions C16_falsy_include_if_decided.
+
+Example C16_falsy_rows_nonvacuous : falsy_rows_example.
+Proof. exact falsy_rows_example_holds. Qed.
+Print Assumptions C16_falsy_rows_nonvacuous.
